@@ -43,6 +43,8 @@ pub fn offset_sets() -> Vec<[f64; 6]> {
         [0.0; 6],
         [0.0, 0.0, -PI / 2.0, 0.0, 0.0, 0.0],
         [0.3, -0.7, -PI / 2.0, 1.1, 0.2, PI],
+        // offsets of more than half a turn (model angle + offset can exceed 3*pi before normalisation)
+        [-PI, 0.0, 0.4, 3.5, -0.3, -4.0],
     ]
 }
 
@@ -94,6 +96,8 @@ pub fn geometries(full: bool) -> Vec<(f64, f64, f64, [f64; 4])> {
         v.push((0.0, -0.135, 0.1, CS[2]));
         v.push((0.15, 0.0, 0.0, CS[2]));
     }
+    // negative link lengths (mirrored forearm / flange): a1 < 0 and b < 0 with it
+    v.push((-0.1, 0.08, -0.05, [0.5, 0.6, -0.55, -0.08]));
     v
 }
 
@@ -123,7 +127,7 @@ pub fn robot_axis(level: u8, dofs: &[i8]) -> Vec<Parameters> {
                         continue;
                     }
                     for (oi, o) in offs.iter().enumerate() {
-                        if si >= 6 && oi != (gi + si) % 3 {
+                        if si >= 6 && oi != (gi + si) % 4 {
                             continue;
                         }
                         out.push(make(g.0, g.1, g.2, g.3, *s, *o, dof));
